@@ -15,6 +15,7 @@
 
 #include "adflib.h"
 #include "adf_bitm.h"
+#include "adf_cache.h"
 #include "adf_dev_hd.h"
 #include "adf_file_block.h"
 #include "adf_file_util.h"
@@ -53,11 +54,11 @@ int main(void) {
     nf->adfInitDevice = nInit; nf->adfReleaseDevice = nRel; nf->adfNativeReadSector = nRead;
     nf->adfNativeWriteSector = nWrite; nf->adfIsDevNative = nIsNative;
 
-    char line[4096];
+    char line[8192];
     while (fgets(line, sizeof line, stdin)) {
         char *nl = strchr(line, '\n'); if (nl) *nl = 0;
         if (!line[0] || line[0] == '#') continue;
-        char copy[4096]; strcpy(copy, line);
+        char copy[8192]; strcpy(copy, line);
         char *a[32]; int na = 0;
         for (char *t = strtok(copy, " "); t && na < 32; t = strtok(NULL, " ")) a[na++] = t;
         const char *f = a[0];
@@ -87,6 +88,23 @@ int main(void) {
             static uint8_t b[2048]; memset(b, 0, sizeof b);
             if (f[3] == 'N') { unhex(a[3], b, sizeof b); printf(" %u", adfNormalSum(b, (int)v[1], (int)v[2])); }
             else { unhex(a[1], b, sizeof b); printf(" %u", adfBootSum(b)); } }
+        else if (!strcmp(f, "adfPutCacheEntry")) { /* p header size protect days mins ticks type hexname hexcomm hexrecords(488) */
+            struct bDirCacheBlock dc; memset(&dc, 0, sizeof dc); struct AdfCacheEntry e; memset(&e, 0, sizeof e);
+            int p = (int)v[1]; e.header = (uint32_t)v[2]; e.size = (uint32_t)v[3]; e.protect = (uint32_t)v[4];
+            e.days = (uint16_t)v[5]; e.mins = (uint16_t)v[6]; e.ticks = (uint16_t)v[7]; e.type = (signed char)v[8];
+            e.nLen = (uint8_t)(strcmp(a[9], "-") ? unhex(a[9], (uint8_t *)e.name, sizeof e.name) : 0);
+            e.cLen = (uint8_t)(strcmp(a[10], "-") ? unhex(a[10], (uint8_t *)e.comm, sizeof e.comm) : 0);
+            { static uint8_t tmp[1200]; memset(tmp, 0, sizeof tmp); unhex(a[11], tmp, sizeof tmp); memcpy(dc.records, tmp, sizeof dc.records); }
+            int r = adfPutCacheEntry(&dc, &p, &e);
+            printf(" %d ", r); for (unsigned i = 0; i < sizeof dc.records; i++) printf("%02x", dc.records[i]); }
+        else if (!strcmp(f, "adfGetCacheEntry")) { /* p hexrecords(488) */
+            struct bDirCacheBlock dc; memset(&dc, 0, sizeof dc); struct AdfCacheEntry e; memset(&e, 0, sizeof e);
+            int p = (int)v[1]; { static uint8_t tmp[1200]; memset(tmp, 0, sizeof tmp); unhex(a[2], tmp, sizeof tmp); memcpy(dc.records, tmp, sizeof dc.records); }
+            RETCODE rc = adfGetCacheEntry(&dc, &p, &e);
+            printf(" %d %d %u %u %u %u %u %u %d %u ", rc, p, e.header, e.size, e.protect, e.days, e.mins, e.ticks, e.type, e.nLen);
+            for (unsigned i = 0; i < sizeof e.name; i++) printf("%02x", (uint8_t)e.name[i]);
+            printf(" %u ", e.cLen);
+            for (unsigned i = 0; i < sizeof e.comm; i++) printf("%02x", (uint8_t)e.comm[i]); }
         else if (!strcmp(f, "adfReadBlock") || !strcmp(f, "adfWriteBlock")) { /* nSect first last mounted [readOnly] */
             struct AdfDevice d; memset(&d, 0, sizeof d); d.isNativeDev = TRUE;
             struct AdfVolume vol; memset(&vol, 0, sizeof vol); vol.dev = &d; vol.volName = "x";
